@@ -301,10 +301,14 @@ def run_tm_case(ctx: Ctx | None, case: dict) -> None:
 
         replaced: set[int] = set()    # bodies that some replace_task call has asked to replace
 
-        def make_body(name: str, dur: float, olds: tuple | None = None, chained_call: bool = False):
+        started: set = set()          # tags of replacement bodies that began to run
+        last_call: dict[str, tuple] = {}   # name -> (kind of the last operation on that name, tag, future)
+
+        def make_body(name: str, dur: float, olds: tuple | None = None, chained_call: bool = False, tag: object = None):
             async def body():
                 counter[0] += 1
                 me = counter[0]
+                started.add(tag)
                 if shutdown_done[0]:
                     fail("T3", "body_after_shutdown", f"a body of task {name!r} started after shutdown completed")
                 if olds is not None and any(o in running for o in olds):
@@ -331,6 +335,7 @@ def run_tm_case(ctx: Ctx | None, case: dict) -> None:
             if kind in ("register", "replace"):
                 _, nm, mode, dur = op
                 name = "n%d" % nm
+                last_call.pop(name, None)
                 kw = {"delay": 0.5} if mode == 1 else {"interval": 1.0} if mode == 2 else {}
                 active = tm.is_pending_task_active(name)
                 if kind == "register":
@@ -357,9 +362,13 @@ def run_tm_case(ctx: Ctx | None, case: dict) -> None:
                     pend = tuple(me for me, n in running.items() if n == name and me in replaced)
                     olds = act if active else pend
                     replaced.update(olds)
-                    tm.replace_task(name, make_body(name, dur, olds=olds, chained_call=not active and bool(pend)), **kw)
+                    tag = ("replace", len(last_call), counter[0], id(op))
+                    rfut = tm.replace_task(name, make_body(name, dur, olds=olds, chained_call=not active and bool(pend),
+                                                           tag=tag), **kw)
+                    last_call[name] = ("replace", tag, rfut)
             elif kind == "cancel":
                 name = "n%d" % op[1]
+                last_call.pop(name, None)
                 tm.cancel_pending_task(name)
                 if op[2]:
                     # cancel immediately followed by a registration under the same name (same loop iteration)
@@ -371,6 +380,7 @@ def run_tm_case(ctx: Ctx | None, case: dict) -> None:
             elif kind == "advance":
                 await asyncio.sleep(op[1])
             elif kind == "shutdown":
+                last_call.clear()
                 earlier = set(cancelling) & set(running)      # cancelled before the shutdown, still cleaning up
                 await tm.shutdown_task_manager()
                 shutdown_done[0] = True
@@ -393,6 +403,16 @@ def run_tm_case(ctx: Ctx | None, case: dict) -> None:
                     if not tm.is_pending_task_active(name):
                         fail("T3", "untracked", f"a body registered as {name!r} is running but the manager no longer tracks "
                                                 f"a task of that name")
+        # a replacement that nothing superseded must get its turn once the old tasks are done ("starts the new one ...
+        # after the old one has finished"): every chained wait is at most one clean-up (0.25 s) long, delays are 0.5 / 1 s
+        if last_call and not shutdown_done[0]:
+            await asyncio.sleep(0.5 * len(case["ops"]) + 3.0)
+            for name, (_, tag, rfut) in sorted(last_call.items()):
+                if tag not in started:
+                    state = "pending" if not rfut.done() else "cancelled" if rfut.cancelled() else \
+                        f"failed with {rfut.exception()!r}"[:120] if rfut.exception() is not None else "registered"
+                    fail("T2", "replacement_lost", f"the last replace_task for {name!r} never started its task although "
+                                                   f"nothing cancelled or replaced it (its future is {state})")
         await tm.shutdown_task_manager()
         shutdown_done[0] = True
         await asyncio.sleep(30)
